@@ -32,6 +32,9 @@ type vlTr struct {
 	gate    chan struct{}
 	// a listener goroutine is blocked handing a datagram to the node (unbuffered channel, as in NetTransport)
 	inflight bool
+	// Shutdown closes the transport but reports an error (a user-supplied transport may; the node must still shut down)
+	failShutdown bool
+	shutCalls    atomic.Int64
 }
 
 func (t *vlTr) WriteTo(b []byte, a string) (time.Time, error) {
@@ -51,6 +54,11 @@ func (t *vlTr) DialTimeout(a string, d time.Duration) (net.Conn, error) {
 	return t.DialAddressTimeout(Address{Addr: a}, d)
 }
 func (t *vlTr) Shutdown() error {
+	t.shutCalls.Add(1)
+	if t.failShutdown {
+		t.closed.Store(true)
+		return fmt.Errorf("transport: listener did not stop cleanly")
+	}
 	if t.gate != nil {
 		select {
 		case t.entered <- struct{}{}:
@@ -123,6 +131,7 @@ func vlRun(t *testing.T, c *vfCase, st *vfStats) {
 	conf := DefaultLANConfig()
 	conf.Name = "self"
 	tr := &vlTr{vwTap: newVwTap()}
+	tr.failShutdown = len(c.Cfg) > 1 && c.Cfg[1] == 1
 	conf.Transport = tr
 	conf.Logger = vwDiscard
 	conf.GossipToTheDeadTime = 5 * time.Second
@@ -135,6 +144,9 @@ func vlRun(t *testing.T, c *vfCase, st *vfStats) {
 	}
 	if len(c.Ops) > 0 && c.Ops[0][0] == 21 {
 		conf.Events = vlDrain{&mp}
+		conf.GossipInterval = time.Hour
+	}
+	if len(c.Ops) > 0 && c.Ops[0][0] == 26 {
 		conf.GossipInterval = time.Hour
 	}
 	m, err := Create(conf)
@@ -280,6 +292,46 @@ func vlRun(t *testing.T, c *vfCase, st *vfStats) {
 		}
 		return
 	}
+	if len(c.Ops) > 0 && c.Ops[0][0] == 26 {
+		// Shutdown from another goroutine while Leave is waiting for its departure to go out (real time: mutexes).
+		// Shutdown must not wait for Leave, and Leave must be back by its timeout.
+		leaveDone, shutDone := make(chan struct{}), make(chan struct{})
+		var pan atomic.Bool
+		guard := func(f func(), done chan struct{}) {
+			defer close(done)
+			defer func() {
+				if recover() != nil {
+					pan.Store(true)
+				}
+			}()
+			f()
+		}
+		go guard(func() { _ = m.Leave(1500 * time.Millisecond) }, leaveDone)
+		for i := 0; i < 200 && !m.hasLeft(); i++ {
+			time.Sleep(time.Millisecond)
+		}
+		time.Sleep(50 * time.Millisecond)
+		t0 := time.Now()
+		go guard(func() { _ = m.Shutdown() }, shutDone)
+		stuck := false
+		select {
+		case <-shutDone:
+		case <-time.After(700 * time.Millisecond):
+			stuck = true
+		}
+		select {
+		case <-leaveDone:
+		case <-time.After(1500*time.Millisecond + time.Second - time.Since(t0)):
+			stuck = true
+		}
+		c.Obs = append(c.Obs, []int64{vwBool(pan.Load()), vwBool(stuck), 0}, []int64{0, 0, 0})
+		st.Ops++
+		st.OpHist["shutdown_during_leave"]++
+		if !stuck {
+			<-shutDone
+		}
+		return
+	}
 	if len(c.Ops) > 0 && c.Ops[0][0] == 24 {
 		// Shutdown while the transport's listener is handing a datagram over: the transport is torn down first
 		// and waits for its listener, which needs the node's packet loop to still be taking packets
@@ -352,11 +404,21 @@ func vlRun(t *testing.T, c *vfCase, st *vfStats) {
 	synctest.Wait()
 	late := tr.after.Load() - a2
 	_ = a1
-	c.Obs = append(c.Obs, []int64{0, late, 0})
+	extra := tr.shutCalls.Load() - 1
+	if extra < 0 {
+		extra = 0
+	}
+	c.Obs = append(c.Obs, []int64{0, late, 0, extra})
+	if !m.hasShutdown() {
+		// Shutdown returned without shutting the node down: stop it now so that the bubble can end
+		tr.failShutdown = false
+		m.Shutdown()
+		time.Sleep(time.Minute)
+	}
 }
 
 func vlGen(r *vfRng) vfCase {
-	c := vfCase{Cfg: []int64{int64(r.n(2))}}
+	c := vfCase{Cfg: []int64{int64(r.n(2)), vwBool(r.chance(25))}}
 	n := 4 + r.n(12)
 	shut := false
 	for i := 0; i < n; i++ {
@@ -441,13 +503,13 @@ func TestVfLife(t *testing.T) {
 				cases = append(cases, vfCase{Cfg: []int64{1}, Ops: [][]int64{{22}}}, vfCase{Cfg: []int64{1}, Ops: [][]int64{{23}}}, vfCase{Cfg: []int64{1}, Ops: [][]int64{{24}}})
 			}
 			if i == 0 {
-				cases = append(cases, vfCase{Cfg: []int64{1}, Ops: [][]int64{{25}}})
+				cases = append(cases, vfCase{Cfg: []int64{1}, Ops: [][]int64{{25}}}, vfCase{Cfg: []int64{1}, Ops: [][]int64{{26}}})
 			}
 		}
 		vlRealSockets(st)
 	}
 	for i := range cases {
-		if len(cases[i].Ops) > 0 && (cases[i].Ops[0][0] == 20 || cases[i].Ops[0][0] == 25) {
+		if len(cases[i].Ops) > 0 && (cases[i].Ops[0][0] == 20 || cases[i].Ops[0][0] == 25 || cases[i].Ops[0][0] == 26) {
 			vlRun(t, &cases[i], st)
 			continue
 		}
